@@ -311,7 +311,7 @@ def run_history(ctx, drv, case, tag):
 
 
 def history_stream(ctx, drv):
-    n = ctx.n(40, 400)
+    n = ctx.n(40, 300)
     for i in range(n):
         rng = ctx.rng.fork(880000 + i)
         run_history(ctx, drv, gen_history(rng, i), f"h{i}")
@@ -389,7 +389,7 @@ def resolve_stream(ctx, drv):
     names = TARGET_NAMES + ["x.y/plain", "x.y/.z.w", "..hh", "H.ZIP", "a.zip.zip", ".zip"]
     grid = [(n, s, m, lv, ex) for n in names for s in ("zip", "dir", "auto", "tar") for m in ("w", "o")
             for lv in (None, 0, 9, 10, -1) for ex in ("no", "file", "dir")]
-    picks = rng.sample(grid, min(len(grid), ctx.n(90, 900)))
+    picks = rng.sample(grid, min(len(grid), ctx.n(90, 600)))
     for i, (n, s, m, lv, ex) in enumerate(picks):
         case = {"save_args": True, "name": n, "store": s, "mode": m, "level": lv, "exists": ex}
         resolve_case(ctx, drv, case, f"r{i}")
